@@ -9,4 +9,5 @@ let lookup (p : string) : Model.val0 -> Model.val0 =
   | "C11" -> Model.run_C11
   | "C14" -> Model.run_C14
   | "C10" -> Model.run_C10
+  | "C15" -> Model.run_C15
   | _ -> failwith ("unknown property " ^ p)
